@@ -85,6 +85,7 @@ func (x *Exec) verify() {
 	entry := &State{Guard: o.True(), Regs: map[ssa.Value]Val{}, Cells: map[*Object]Val{}, Ghost: map[string]Val{}}
 	entry.H = o.Var("H0", o.HeapSort())
 	entry.Alloc = o.Var("alloc0", IntSort)
+	o.allocVars[entry.Alloc] = true
 	x.assume(o.Ge(entry.Alloc, o.Int(1)))
 	var paramObjs []*Object
 	for _, p := range fn.Params {
@@ -155,9 +156,6 @@ func (x *Exec) verify() {
 			for _, n := range names[i] {
 				penv.vars[n] = SVal{V: r.Results[i], T: res.At(i).Type()}
 			}
-		}
-		for _, g := range fc.Ghost {
-			penv.vars[g.Tags[0]] = penv.eval(g.E)
 		}
 		// case-split hints: each ensures obligation is proved once per case and once for "none of the cases"
 		cases := []*Term{o.True()}
@@ -230,6 +228,7 @@ func (x *Exec) constrainParam(entry *State, v Val) {
 	switch t := v.(type) {
 	case SliceVal:
 		x.assume(o.Lt(t.Reg, entry.Alloc))
+		o.oldRegs[t.Reg] = true
 	case StructVal:
 		for _, f := range t.F {
 			x.constrainParam(entry, f)
@@ -265,6 +264,11 @@ func (x *Exec) frameObligations(st *State, paramObjs []*Object) {
 					panic(r)
 				}
 			}()
+			if call, ok := ex.(*ECall); ok {
+				if id, ok := call.Fun.(*EIdent); ok && id.Name == "decoder" {
+					return // ghost state: no memory frame to check
+				}
+			}
 			switch t := ex.(type) {
 			case *EUnary:
 				v := env.eval(t.X)
